@@ -110,6 +110,11 @@ type fnSpec struct {
 	methodDeps map[string]string
 	// assumeFalse: `if <this condition> {..}` is skipped (declared assumption: no debug logging)
 	assumeFalse string
+	// plainDo: a function without recursion and without a position parameter in the `do` style (zwsort.go)
+	plainDo bool
+	// callOracles: `pkg.Func` -> `field field[:len(field)] .. =field`: a call statement `pkg.Func(s)` on a struct whose fields alias
+	// slices is an ORACLE of those fields (values) whose result is assigned to the field after `=` (sort.Sort: zwsort.go)
+	callOracles map[string]string
 }
 
 // groups in file order; a function may only call functions of its own or an earlier group
@@ -807,6 +812,7 @@ func (t *tr) declareViewList(a *absParam, ty types.Type, decl string, kind strin
 			continue
 		}
 		cur := ty
+		var lastPkg *types.Package // the package of the last named type on the path (unexported fields of an anonymous struct: zwsort.go)
 		for _, comp := range path {
 			if p, ok := cur.(*types.Pointer); ok {
 				cur = p.Elem()
@@ -826,6 +832,9 @@ func (t *tr) declareViewList(a *absParam, ty types.Type, decl string, kind strin
 			var pkg *types.Package
 			if n, ok := cur.(*types.Named); ok {
 				pkg = n.Obj().Pkg()
+				lastPkg = pkg
+			} else {
+				pkg = lastPkg
 			}
 			obj, _, _ := types.LookupFieldOrMethod(cur, true, pkg, comp)
 			switch o := obj.(type) {
@@ -2903,7 +2912,9 @@ func genFuncs(ld *loader) (map[string]string, []error) {
 			}
 			var def string
 			var t *tr
-			if spec.round7 {
+			if spec.round7 && spec.plainDo {
+				def, t = g.doFunction(p, spec, gi, fd)
+			} else if spec.round7 {
 				def, t = g.zwFunction(p, spec, gi, fd)
 			} else if spec.table {
 				def, t = g.closureTable(p, spec, gi, fd)
